@@ -38,6 +38,10 @@ pub mod xing;
 pub mod khgen;
 #[cfg(feature = "kh")]
 pub mod cob;
+#[cfg(feature = "kh")]
+pub mod miscdiv;
+#[cfg(feature = "kh")]
+pub mod snfh;
 
 /// (table, should_panic) for the native runner
 #[cfg(not(kani))]
@@ -46,6 +50,6 @@ pub fn all_tables() -> Vec<(&'static [(&'static str, fn(&mut src::Src) -> src::R
     #[cfg(feature = "core")]
     { v.push((bitseq::BITSEQ, false)); v.push((bitseq::BITSEQ_REJECT, true)); v.push((ring::RING, false)); v.push((mono::MONO, false)); v.push((xing::XING, false)); v.push((xing::XING_REJECT, true)); }
     #[cfg(feature = "kh")]
-    { v.push((khgen::KHGEN, false)); v.push((cob::COB, false)); v.push((cob::MISC, false)); }
+    { v.push((khgen::KHGEN, false)); v.push((cob::COB, false)); v.push((miscdiv::MISC, false)); v.push((snfh::SNF, false)); }
     v
 }
